@@ -1,5 +1,6 @@
 import Drv.Walk
 import FsutilModel.Model.SyncB
+import FsutilModel.Model.Filter
 open Lean Fsm
 
 namespace Drv
@@ -31,15 +32,28 @@ def parseNotif (x : Json) : Except String BEv := do
   | "modify" => return .modify (← parseStat ((x.getObjVal? "stat").toOption.getD (jobj [("p", jhex p)]))).toEnt
   | _ => throw s!"notif kind {k}"
 
+def parseSFilter (j : Json) : Except String (Option F.Cfg) := do
+  match j.getObjVal? "sfilter" with
+  | .ok f =>
+    let inc := (getHexArr f "include").toOption.getD []
+    let exc := (getHexArr f "exclude").toOption.getD []
+    return some { inc := P.parsePatterns inc, exc := P.parsePatterns exc }
+  | .error _ => return none
+
 def hSync (j : Json) : Except String Json := do
-  let view ← parseView j
+  let full ← parseView j
+  let sf ← parseSFilter j
+  let view := match sf with
+    | some cfg => F.senderView Fix.f9 cfg full
+    | none => F.senderView Fix.f9 { inc := [], exc := [] } full
   let before ← (← getArr j "before").toList.mapM parseSnap
   let after ← (← getArr j "after").toList.mapM parseSnap
   let o := parseSyncOpt ((j.getObjVal? "opt").toOption.getD (jobj []))
   let evs := syncEvents o before view
   let reqs := expectedReqs o before view
   let mut out := [("events", Json.arr (evs.map evJ).toArray), ("reqs", toJson reqs),
-                  ("sent", Json.arr (view.map (fun v => statJ v.st)).toArray)]
+                  ("sent", Json.arr (view.map (fun v => statJ v.st)).toArray),
+                  ("links_closed", toJson (F.linksClosed [] (view.map (·.st))))]
   out := out ++ verdictJ "c01" (specSync o before after view)
   out := out ++ verdictJ "untouched" (specUntouched o before after view)
   -- C05: the notifications the implementation made, judged by the listing-level spec
